@@ -300,13 +300,14 @@ class C08(PropertyCheck):
         res.rule = ("per (wrapper recipe, seed): structural probe of one request (generators created, cells after the request vs model seededGetitem) + "
                     "behavioural oracle (fresh-instance reference vs random access order with repeats under scrambled global state); "
                     "distinct = (recipe, seed, item, tree shape)")
-        seeds = [3 + self.seed, 11 + 2 * self.seed] if self.tier == "quick" else [3 + self.seed + 7 * k for k in range(5)]
+        # seed 0 is always included: `if self.seed:` style truthiness slips treat it as "no seed"
+        seeds = [0, 3 + self.seed] if self.tier == "quick" else [0] + [3 + self.seed + 7 * k for k in range(4)]
         R = wrapper_recipes()
         reqs, metas = [], []
         for label, build, items in R:
             if label in ("subset-over-xt", "xt-over-xt", "mix-over-xt"):
                 continue   # several seeded layers in one stack: covered by the behavioural oracle only
-            for sd in seeds[:1]:
+            for sd in seeds[1:2]:
                 try:
                     scramble(31)
                     w = build(sd)
@@ -382,7 +383,7 @@ class C08(PropertyCheck):
         out = []
         t0 = time.time()
         for label, build, items in wrapper_recipes():
-            for sd in (1, 2, 5):
+            for sd in (0, 1, 5):
                 if time.time() - t0 > budget_s:
                     return out
                 f = self.oracle(label, build, items, sd, n_access=25)
@@ -465,11 +466,28 @@ def fingerprint(g, n=8):
     return tuple(copy.deepcopy(g).random(n).tolist())
 
 
-def simulate_worker(build_or_obj, ws, rank):
+def simulate_worker(build_or_obj, ws, rank, num_workers=None):
+    """what torch does in a dataloader worker: a copy of the dataset, the global RNGs seeded with the worker seed, then the hook.
+    `num_workers`: what torch.utils.data.get_worker_info() reports inside the worker (None = hook called in the main process)"""
+    import types
+    import kappadata.transforms.base.kd_transform as kdt
     st = copy.deepcopy(build_or_obj)
     np.random.seed(ws)
     torch.manual_seed(ws)
-    st.worker_init_fn(rank, **WI_KW)
+    if num_workers is None:
+        st.worker_init_fn(rank, **WI_KW)
+    else:
+        info = types.SimpleNamespace(id=rank, num_workers=num_workers, seed=ws, dataset=st)
+        patches = [mock.patch.object(kdt, "get_worker_info", lambda: info)]
+        import torch.utils.data as tud
+        patches.append(mock.patch.object(tud, "get_worker_info", lambda: info))
+        for p_ in patches:
+            p_.start()
+        try:
+            st.worker_init_fn(rank, **WI_KW)
+        finally:
+            for p_ in patches:
+                p_.stop()
     return st
 
 
@@ -504,15 +522,15 @@ class C09(PropertyCheck):
         return {"transform_rows": len(rows), "layer_rows": len(wrows), "changed": [changed, wchanged],
                 "translator_notes": [f"{a}: {b}" for a, b in errors + werrors], "rows_failing_obligation": self.problems}
 
-    def oracle(self, label, build, ws_list):
-        key_in = {"recipe": label, "worker_seeds": ws_list}
+    def oracle(self, label, build, ws_list, num_workers=None):
+        key_in = {"recipe": label, "worker_seeds": ws_list, "num_workers": num_workers}
         try:
             scramble(51)
             parent = build()
             parent_cells = all_cells(parent)
             workers = []
             for r, ws in enumerate(ws_list):
-                st = simulate_worker(parent, ws, r)
+                st = simulate_worker(parent, ws, r if num_workers is None else r % num_workers, num_workers)
                 workers.append(st)
         except Exception as e:
             return Failure(f"worker:{label}:exception", f"worker init of stack {label} raises {type(e).__name__}: {e}", key_in, "no exception", str(e))
@@ -559,7 +577,7 @@ class C09(PropertyCheck):
         scramble(61)
         st = build()
         parent_fp = {fingerprint(g, 4) for g in all_cells(st)}
-        for nw in (2, 3):
+        for nw in (1, 2, 3):
             p = Probe(st)
             torch.manual_seed(1234)
             dl = DataLoader(p, batch_size=1, num_workers=nw, collate_fn=lambda b: b[0],
@@ -646,12 +664,13 @@ class C09(PropertyCheck):
             [[101 + self.seed + k, 202 + self.seed + k, 303 + k, 101 + self.seed + k] for k in range(4)]
         for label, build in R:
             for ws in seeds_sets:
-                res.cases += 1
-                res.bump("simulated-workers")
-                res.nontrivial.add((label, tuple(ws)))
-                f = self.oracle(label, build, ws)
-                if f is not None and not any(g.key == f.key for g in res.failures):
-                    res.failures.append(f)
+                for nw in (None, 1, 3):     # hook in the main process / inside a worker of a 1- resp. 3-worker loader
+                    res.cases += 1
+                    res.bump(f"simulated-workers(num_workers={nw})")
+                    res.nontrivial.add((label, tuple(ws), nw))
+                    f = self.oracle(label, build, ws, nw)
+                    if f is not None and not any(g.key == f.key for g in res.failures):
+                        res.failures.append(f)
         if self.tier == "thorough":
             for label, build in R:
                 if label == "interleaved-concat":
@@ -670,13 +689,15 @@ class C09(PropertyCheck):
     def search(self, budget_s, hints):
         out = []
         for label, build in stack_recipes():
-            f = self.oracle(label, build, [7, 8, 9, 7])
-            if f:
-                out.append(f)
+            for nw in (None, 1, 2):
+                f = self.oracle(label, build, [7, 8, 9, 7], nw)
+                if f:
+                    out.append(f)
+                    break
         return out
 
     def replay_input(self, inp):
         for label, build in stack_recipes():
             if label == inp.get("recipe"):
-                return self.oracle(label, build, inp.get("worker_seeds", [7, 8, 7]))
+                return self.oracle(label, build, inp.get("worker_seeds", [7, 8, 7]), inp.get("num_workers"))
         return None
